@@ -20,7 +20,9 @@ def program(pid, nodes, start=1, end=8):
 
 SOURCE_KINDS = ("src", "timer", "fb")
 UNARY = ("pass", "add", "acc", "count", "delay", "echo")
-BINARY = ("sum2", "sumu", "sample")
+BINARY = ("sum2", "sumu", "sample", "sample2", "sampleu", "lsum", "lsumv")
+# sample2 / sampleu: sum2 / sumu whose second input is used passively (passive(port) at the call site)
+PASSIVE_USAGE = {"sample2": "sum2", "sampleu": "sumu"}
 
 
 # --------------------------------------------------------------------------------------------- rendering
@@ -40,11 +42,14 @@ def _stmt(i, n, ref):
     elif n["kind"] == "fb":
         if n["init"] != -1:
             kv.append("init=%d" % n["init"])
-    s = "n %d %s" % (i, n["kind"])
+    s = "n %d %s" % (i, PASSIVE_USAGE.get(n["kind"], n["kind"]))
     if kv:
         s += " " + " ".join(kv)
     if n["ins"]:
-        s += " in=" + ",".join(ref(j) for j in n["ins"])
+        refs = [ref(j) for j in n["ins"]]
+        if n["kind"] in PASSIVE_USAGE:
+            refs[1] = "p:" + refs[1]
+        s += " in=" + ",".join(refs)
     return s
 
 
